@@ -870,5 +870,214 @@ theorem QInv.fifo {c : Cfg} {k : Nat} {s : St} {S A : List Nat} {o : Option Nat}
     obtain ⟨rest, _, h2, _⟩ := this
     exact (List.sublist_append_left S _).trans h2
 
+/-! ### cancellation: phases only move forward, a cancelled event is past its transition stages -/
+
+def PhaseLe (s s' : St) : Prop := ∀ e, (s.phase e).rank ≤ (s'.phase e).rank
+
+theorem PhaseLe.rfl' (s : St) : PhaseLe s s := fun _ => Nat.le_refl _
+theorem PhaseLe.trans {a b c : St} (h1 : PhaseLe a b) (h2 : PhaseLe b c) : PhaseLe a c :=
+  fun e => Nat.le_trans (h1 e) (h2 e)
+
+theorem phaseLe_of_upd {s s' : St} {t : Nat} {p : Phase} (hp : s'.phase = upd s.phase t p)
+    (h : (s.phase t).rank ≤ p.rank) : PhaseLe s s' := by
+  intro e
+  rw [hp]
+  by_cases he : e = t
+  · subst he; simpa using h
+  · rw [upd_ne _ _ _ _ he]; exact Nat.le_refl _
+
+theorem deliver_phaseLe (c : Cfg) (s : St) (e : Nat) : PhaseLe s (deliver c s e) := by
+  unfold deliver
+  split <;> (try split) <;>
+    first
+    | exact PhaseLe.rfl' s
+    | exact phaseLe_of_upd (t := e) rfl (by simp [*, Phase.rank])
+
+theorem deliverCall_phaseLe (c : Cfg) (s : St) (h : Nat) : PhaseLe s (deliverCall c s h) := by
+  unfold deliverCall
+  split
+  · exact deliver_phaseLe c s _
+  · exact PhaseLe.rfl' s
+
+theorem foldl_phaseLe {f : St → Nat → St} (hf : ∀ s x, PhaseLe s (f s x)) :
+    ∀ (l : List Nat) (s : St), PhaseLe s (l.foldl f s)
+  | [], s => PhaseLe.rfl' s
+  | x :: l, s => (hf s x).trans (foldl_phaseLe hf l (f s x))
+
+theorem cancelChain_phaseLe (c : Cfg) (s : St) (r : Nat) : PhaseLe s (cancelChain c s r) :=
+  foldl_phaseLe (deliverCall_phaseLe c) _ s
+
+theorem cancelAll_phaseLe (c : Cfg) (s : St) (rs : List Nat) : PhaseLe s (cancelAll c s rs) :=
+  foldl_phaseLe (cancelChain_phaseLe c) rs s
+
+theorem finished_phaseLe (s : St) (t : Nat) : PhaseLe s (finished s t) := by
+  intro e
+  obtain ⟨_, _, f3, f4⟩ := finished_fields s t
+  by_cases he : e = t
+  · subst he; rw [f4]; cases s.phase e <;> simp [Phase.rank]
+  · rw [f3 e he]; exact Nat.le_refl _
+
+theorem step_phaseLe {c : Cfg} {s s' : St} {l : Label} (h : step c s l = some s') : PhaseLe s s' := by
+  cases l with
+  | begin t r m =>
+    simp only [step] at h
+    unfold stepBegin at h
+    by_cases hg : s.call t = .none ∧ s.phase t = .none ∧
+        (if r = t then s.stack t = [] else (s.stack r ≠ [] ∧ s.call r = .active ∧ s.chain r = r))
+    · rw [if_pos hg] at h
+      simp only at h
+      step_split h <;> exact phaseLe_of_upd (t := t) rfl (by simp [hg.2.1, Phase.rank])
+    · rw [if_neg hg] at h; cases h
+  | evstart t m =>
+    simp only [step] at h; unfold stepEvstart at h
+    split at h
+    next hg => step_split h <;> exact phaseLe_of_upd (t := t) rfl (by simp [hg.1, Phase.rank])
+    · cases h
+  | evend t m o =>
+    simp only [step] at h; unfold stepEvend at h
+    step_split h <;> exact finished_phaseLe s t
+  | cb t k =>
+    simp only [step] at h; unfold stepCb at h
+    step_split h <;>
+      first
+      | exact PhaseLe.rfl' _
+      | exact phaseLe_of_upd (t := t) rfl (by simp [*, Phase.rank])
+  | decide t cs =>
+    simp only [step] at h; unfold stepDecide at h
+    split at h
+    next hg =>
+      cases h
+      exact (phaseLe_of_upd (s' := { s with phase := upd s.phase t .mid }) (t := t) rfl
+        (by simp [hg.2.1, Phase.rank])).trans (cancelAll_phaseLe c _ cs)
+    · cases h
+  | set t v =>
+    simp only [step] at h; unfold stepSet at h
+    split at h
+    next hg => cases h; exact phaseLe_of_upd (t := t) rfl (by simp [hg.2.1, Phase.rank])
+    · cases h
+  | fail t =>
+    simp only [step] at h; unfold stepFail at h
+    step_split h <;>
+      first
+      | exact PhaseLe.rfl' _
+      | exact phaseLe_of_upd (t := t) rfl (by simp [*, Phase.rank])
+  | ret t b => simp only [step] at h; unfold stepRet at h; step_split h; exact PhaseLe.rfl' _
+  | raised t b => simp only [step] at h; unfold stepRaised at h; step_split h; exact PhaseLe.rfl' _
+  | remove m => simp only [step] at h; unfold stepRemove at h; step_split h <;> exact PhaseLe.rfl' _
+
+theorem run_phaseLe {c : Cfg} : ∀ (ls : List Label) (s s' : St), run c s ls = some s' → PhaseLe s s'
+  | [], s, s', h => by simp only [run, Option.some.injEq] at h; subst h; exact PhaseLe.rfl' s
+  | l :: ls, s, s', h => by
+    simp only [run] at h
+    split at h
+    next s1 h1 => exact (step_phaseLe h1).trans (run_phaseLe ls s1 s' h)
+    · cases h
+
+theorem deliver_doom (c : Cfg) (s : St) (e : Nat) (h : started (s.phase e)) :
+    5 ≤ ((deliver c s e).phase e).rank := by
+  unfold deliver
+  split <;> (try split) <;> simp_all [started, Phase.rank, upd]
+  next h1 h2 h3 h4 => cases hp : s.phase e <;> simp_all [Phase.rank]
+
+theorem foldl_pres {f : St → Nat → St} {P : St → Prop} (hP : ∀ s y, P s → P (f s y)) :
+    ∀ (l : List Nat) (s : St), P s → P (l.foldl f s)
+  | [], _, h => h
+  | y :: l, s, h => foldl_pres hP l (f s y) (hP s y h)
+
+theorem foldl_mem {f : St → Nat → St} {P Q : St → Prop} {x : Nat} (hP : ∀ s y, P s → P (f s y))
+    (hQ : ∀ s y, Q s → Q (f s y)) (hx : ∀ s, Q s → P (f s x)) :
+    ∀ (l : List Nat) (s : St), x ∈ l → Q s → P (l.foldl f s)
+  | [], _, hm, _ => by cases hm
+  | y :: l, s, hm, hq => by
+    simp only [List.foldl]
+    by_cases hxy : x = y
+    · subst hxy; exact foldl_pres hP l _ (hx s hq)
+    · have : x ∈ l := by
+        rcases List.mem_cons.1 hm with h | h
+        · exact absurd h hxy
+        · exact h
+      exact foldl_mem hP hQ hx l _ this (hQ s y hq)
+
+theorem cancelChain_doom (c : Cfg) (s : St) (r h e : Nat) (hh : h ∈ s.stack r) (hc : s.cur h = some e)
+    (hs : started (s.phase e)) : 5 ≤ ((cancelChain c s r).phase e).rank := by
+  unfold cancelChain
+  refine foldl_mem (P := fun x => 5 ≤ (x.phase e).rank) (Q := fun x => x.cur h = some e ∧ started (x.phase e))
+    (fun x y hp => Nat.le_trans hp (deliverCall_phaseLe c x y e))
+    (fun x y hq => ⟨by rw [(deliverCall_frame c x y).cur]; exact hq.1, (deliverCall_quiet c x y).started e hq.2⟩)
+    (fun x hq => ?_) _ s hh ⟨hc, hs⟩
+  unfold deliverCall
+  rw [hq.1]
+  exact deliver_doom c x e hq.2
+
+theorem cancelAll_doom (c : Cfg) (s : St) (rs : List Nat) (r h e : Nat) (hr : r ∈ rs) (hh : h ∈ s.stack r)
+    (hc : s.cur h = some e) (hs : started (s.phase e)) : 5 ≤ ((cancelAll c s rs).phase e).rank := by
+  unfold cancelAll
+  refine foldl_mem (P := fun x => 5 ≤ (x.phase e).rank)
+    (Q := fun x => h ∈ x.stack r ∧ x.cur h = some e ∧ started (x.phase e))
+    (fun x y hp => Nat.le_trans hp (cancelChain_phaseLe c x y e))
+    (fun x y hq => ⟨by rw [(cancelChain_frame c x y).stack]; exact hq.1,
+      by rw [(cancelChain_frame c x y).cur]; exact hq.2.1,
+      (foldl_quiet (deliverCall_quiet c) _ x).started e hq.2.2⟩)
+    (fun x hq => cancelChain_doom c x r h e hq.1 hq.2.1 hq.2.2) rs s hr ⟨hh, hc, hs⟩
+
+/-- labels that belong to the transition stages of event `e` -/
+def isTransitional (e : Nat) : Label → Bool
+  | .cb t k => t == e && (k == 0 || k == 1 || k == 2)
+  | .decide t _ => t == e
+  | .set t _ => t == e
+  | _ => false
+
+theorem transitional_needs {c : Cfg} {s s' : St} {l : Label} {e : Nat} (h : step c s l = some s')
+    (ht : isTransitional e l = true) : (s.phase e).rank ≤ 4 := by
+  cases l with
+  | cb t k =>
+    simp only [isTransitional, Bool.and_eq_true, beq_iff_eq, Bool.or_eq_true] at ht
+    obtain ⟨rfl, hk⟩ := ht
+    simp only [step] at h; unfold stepCb at h
+    step_split h <;> simp_all [Phase.rank]
+  | decide t cs =>
+    simp only [isTransitional, beq_iff_eq] at ht; subst ht
+    simp only [step] at h; unfold stepDecide at h
+    split at h
+    next hg => simp [hg.2.1, Phase.rank]
+    · cases h
+  | set t v =>
+    simp only [isTransitional, beq_iff_eq] at ht; subst ht
+    simp only [step] at h; unfold stepSet at h
+    split at h
+    next hg => simp [hg.2.1, Phase.rank]
+    · cases h
+  | _ => simp [isTransitional] at ht
+
+theorem run_no_transitional {c : Cfg} {e : Nat} : ∀ (ls : List Label) (s s' : St),
+    5 ≤ (s.phase e).rank → run c s ls = some s' → ∀ l ∈ ls, isTransitional e l = false
+  | [], _, _, _, _ => by simp
+  | l :: ls, s, s', hd, h => by
+    simp only [run] at h
+    split at h
+    next s1 h1 =>
+      intro l' hl'
+      rcases List.mem_cons.1 hl' with hl' | hl'
+      · subst hl'
+        cases hb : isTransitional e l' with
+        | false => rfl
+        | true => have := transitional_needs h1 hb; omega
+      · exact run_no_transitional ls s1 s' (Nat.le_trans hd (step_phaseLe h1 e)) h l' hl'
+    · cases h
+
+theorem decide_doom {c : Cfg} {s s' : St} {t : Nat} {cs : List Nat} (h : stepDecide c s t cs = some s')
+    {r hc e : Nat} (hr : r ∈ cs) (hh : hc ∈ s.stack r) (hcur : s.cur hc = some e) (hs : started (s.phase e)) :
+    5 ≤ (s'.phase e).rank := by
+  unfold stepDecide at h
+  split at h
+  next hg =>
+    cases h
+    refine cancelAll_doom c { s with phase := upd s.phase t .mid } cs r hc e hr hh hcur ?_
+    show started (upd s.phase t .mid e)
+    by_cases he : e = t
+    · subst he; simp [started, Phase.rank]
+    · rw [upd_ne _ _ _ _ he]; exact hs
+  · cases h
+
 end AS
 end TM
